@@ -21,6 +21,7 @@ import (
 
 	gerr "github.com/fatedier/golib/errors"
 
+	"github.com/fatedier/frp/pkg/util/verifhook"
 	"github.com/fatedier/frp/server/ports"
 )
 
@@ -53,6 +54,7 @@ func (tgc *TCPGroupCtl) Listen(proxyName string, group string, groupKey string,
 		tgc.groups[group] = tcpGroup
 	}
 	tgc.mu.Unlock()
+	verifhook.At("group.tcp.after_lookup", proxyName)
 
 	return tcpGroup.Listen(proxyName, group, groupKey, addr, port)
 }
@@ -147,6 +149,7 @@ func (tg *TCPGroup) worker() {
 		if err != nil {
 			return
 		}
+		verifhook.At("group.tcp.before_handoff", tg.group)
 		err = gerr.PanicToError(func() {
 			tg.acceptCh <- c
 		})
